@@ -227,9 +227,9 @@ class TypedGen:
     def key_of(self, kt):
         rng = self.rng
         if kt == 'int':
-            return I(rng.choice([0, 1, 2, 3, -1, 7]))
+            return I(rng.choice([0, 1, 2, 3, -1, 7, 0, 1, 2, I64_MIN, I64_MAX, -2]))
         if kt == 'uint':
-            return U(rng.choice([0, 1, 2, 3, 9]))
+            return U(rng.choice([0, 1, 2, 3, 9, 0, 1, 2, U64_MAX, 1 << 63, U64_MAX - 1, I64_MAX]))
         if kt == 'bool':
             return B(rng.random() < 0.5)
         return S(rng.choice(FIELD_NAMES + ["", "é", "x y"]))
@@ -310,6 +310,9 @@ class TypedGen:
         m = self.gen(('map', kt, t), d)
         if kt == 'string' and rng.random() < 0.4:
             return ('sel', m, rng.choice(FIELD_NAMES))
+        if kt in ('int', 'uint') and rng.random() < 0.35:
+            # query with the other integer kind: numerically equal int / uint keys are one key
+            return ('idx', m, ('lit', self.key_of('uint' if kt == 'int' else 'int')))
         return ('idx', m, ('lit', self.key_of(kt)))
 
     # index / select can yield null or raise, which would break typing of the parent: the typed
@@ -390,6 +393,10 @@ class TypedGen:
             return ('bin', 'in', self.gen(et, d), self.gen(('list', et), d))
         if m < 0.77:
             kt = rng.choice(KEY_TYPES)
+            qt = kt
+            if kt in ('int', 'uint') and rng.random() < 0.35:
+                qt = 'uint' if kt == 'int' else 'int'
+                return ('bin', 'in', ('lit', self.key_of(qt)), self.gen(('map', kt, self.any_scalar()), d))
             return ('bin', 'in', self.gen(kt, min(d, 1)), self.gen(('map', kt, self.any_scalar()), d))
         if m < 0.81:
             return ('has', self.gen(('map', 'string', self.any_scalar()), d), rng.choice(FIELD_NAMES))
